@@ -313,7 +313,7 @@ func oracleC13(p *plan.Plan, his []plan.Rec, res *plan.Result) {
 			}
 		case "ctl.wait_stable":
 			if r.Err != "" && r.Op.Tag == "final" {
-				viol(res, "not-stabilised", p.Variant, "after events %s the cluster did not stabilise within the bound: %s", p.Variant, r.Err)
+				viol(res, "not-stabilised", p.Variant+stormTag(r.Err), "after events %s the cluster did not stabilise within the bound: %s", p.Variant, r.Err)
 			}
 		case "ctl.snapshot":
 			snap = r.Snap
